@@ -546,19 +546,26 @@ func (h *c09h) d1Point(a, b string, sa, sb *obiseq.BioSequence) {
 	r.Eval(1)
 	r.Trans(1)
 	c := c09case{Kind: "d1", c09call: c09call{A: a, B: b}}
+	dist := c09lev(a, b)
+	// (classification counters: from the reference distance, whatever the kernel answers)
+	switch {
+	case dist == 0:
+		r.Count("d1_identical", 1)
+	case dist == 1:
+		r.Count("d1_distance1", 1)
+	default:
+		r.Count("d1_distance>=2", 1)
+	}
 	if got.panicked != "" {
 		h.violate("D1Or0", "panic", c, "panics: "+got.panicked)
 		return
 	}
-	dist := c09lev(a, b)
 	switch {
 	case dist == 0:
-		r.Count("d1_identical", 1)
 		if got.d != 0 {
 			h.violate("D1Or0", "identical-not-0", c, fmt.Sprintf("identical sequences, got %d", got.d))
 		}
 	case dist == 1:
-		r.Count("d1_distance1", 1)
 		if got.d != 1 {
 			h.violate("D1Or0", "missed-d1", c, fmt.Sprintf("edit distance is 1, got %d", got.d))
 			break
@@ -567,7 +574,6 @@ func (h *c09h) d1Point(a, b string, sa, sb *obiseq.BioSequence) {
 			h.violate("D1Or0", "edit-not-reproduced", c, fmt.Sprintf("got (1, pos=%d, %q, %q): %s", got.pos, got.a1, got.a2, msg))
 		}
 	default:
-		r.Count("d1_distance>=2", 1)
 		if got.d != -1 {
 			h.violate("D1Or0", "spurious", c, fmt.Sprintf("edit distance is %d, got %d", dist, got.d))
 		}
@@ -771,6 +777,9 @@ func (h *c09h) symbolPairs(report bool) {
 
 func TestVerifC09(t *testing.T) {
 	log.SetOutput(io.Discard)
+	// a logrus Fatal inside a kernel unwinds like a panic (c09runLCS / c09runD1 / c09runByte turn it into an answer
+	// that the oracle judges) instead of ending the process
+	log.StandardLogger().ExitFunc = func(code int) { panic(fmt.Sprintf("log.Fatal (exit status %d)", code)) }
 	r := verifkit.New("C09")
 	defer r.Write()
 	h := &c09h{r: r}
